@@ -657,6 +657,12 @@ func nmRunHistory(t *testing.T, n *nmEnv, f *nmFile, proj nmProjection, mon nmMo
 			break
 		}
 		h.all = append(h.all, op)
+		if op.Join && op.Kind == "newEpoch" && hasSigner(op, -1) && op.Epoch > tr.epoch {
+			// the generator's belief while the block is being assembled (the next
+			// operation of the same block sees the new epoch); corrected by the
+			// read after the block
+			tr.epoch = op.Epoch
+		}
 		switch op.Kind {
 		case "probeSetFault":
 			flush()
@@ -1280,6 +1286,48 @@ type nmGen struct {
 	// identical descriptor (nodes re-announce themselves every epoch)
 	lastInfo map[int][]byte
 	lastNode map[int]nmOp
+	// operations already decided (the rest of a block pattern)
+	queue []nmOp
+}
+
+// blockPattern returns 2-3 operations to be packed into ONE block (several
+// transactions per block): two individually valid ticks (e+1, e+2), tick +
+// candidate change + tick, subscription + tick, candidate change + tick.
+func (g *nmGen) blockPattern(step int, tr *nmTrack) []nmOp {
+	r := g.r
+	tick := func(e int64) nmOp { return nmOp{Kind: "newEpoch", Epoch: e, Signers: []int{-1}} }
+	var ops []nmOp
+	switch r.Intn(5) {
+	case 0:
+		ops = []nmOp{tick(tr.epoch + 1), tick(tr.epoch + 2)}
+	case 1:
+		ops = []nmOp{tick(tr.epoch + 1), g.candOp(step, byte(step)), tick(tr.epoch + 2)}
+	case 2:
+		if len(g.n.probes) > 0 {
+			ops = []nmOp{{Kind: "subscribe", Hash: g.n.probes[r.Intn(len(g.n.probes))].BytesBE(), Signers: []int{-1}}, tick(tr.epoch + 1)}
+		} else {
+			ops = []nmOp{tick(tr.epoch + 1), tick(tr.epoch + 1), tick(tr.epoch + 3)}
+		}
+	case 3:
+		ops = []nmOp{g.candOp(step, byte(step)), tick(tr.epoch + 1), g.candOp(step, byte(step+100))}
+	default:
+		ops = []nmOp{tick(tr.epoch + 1), tick(tr.epoch + 5), tick(tr.epoch + 2)}
+	}
+	for i := range ops[:len(ops)-1] {
+		ops[i].Join = true
+	}
+	ops[len(ops)-1].Join = false
+	return ops
+}
+
+// pop returns the next operation of a pattern in progress.
+func (g *nmGen) pop() (nmOp, bool) {
+	if len(g.queue) == 0 {
+		return nmOp{}, false
+	}
+	op := g.queue[0]
+	g.queue = g.queue[1:]
+	return op, true
 }
 
 func (g *nmGen) keyOf(i int) []byte { return g.n.nodes[i].pub }
@@ -1443,6 +1491,14 @@ func (g *nmGen) nextC06(step int, tr *nmTrack) nmOp {
 	r := g.r
 	n := g.n
 	var op nmOp
+	if q, ok := g.pop(); ok {
+		return q
+	}
+	if r.Intn(7) == 0 {
+		g.queue = g.blockPattern(step, tr)
+		q, _ := g.pop()
+		return q
+	}
 	switch w := r.Intn(100); {
 	case w < 30:
 		op = g.candOp(step, byte(step))
@@ -1497,10 +1553,22 @@ func (g *nmGen) nextC06(step int, tr *nmTrack) nmOp {
 }
 
 func (g *nmGen) nextC07(step int, tr *nmTrack) nmOp {
+	if q, ok := g.pop(); ok {
+		return q
+	}
+	if g.r.Intn(12) == 0 {
+		g.queue = g.blockPattern(step, tr)
+		q, _ := g.pop()
+		return q
+	}
 	if g.r.Intn(9) == 0 {
 		return g.tickOp(tr)
 	}
-	return g.candOp(step, byte(step))
+	op := g.candOp(step, byte(step))
+	if g.r.Intn(5) == 0 {
+		op.Join = true // several candidate requests in one block
+	}
+	return op
 }
 
 // planC08 builds a history of the quantifier's scope: ticks[0] consecutive
@@ -1511,33 +1579,40 @@ func (g *nmGen) planC08(counts []int64, ticks []int, lightWarmup bool) {
 	epoch := int64(0)
 	nn := len(n.nodes)
 	light := false
+	joinNext := false
+	prevJoined := false
 	tick := func() {
 		epoch++
+		inBlock := light || prevJoined // the candidate changes share the block of the tick(s)
 		i := int(epoch) % nn
 		tag := byte(epoch)
 		// make this epoch's candidate sets distinguishable in both formats
 		// warm-up ticks: the candidate changes share the block of the tick (several transactions per block)
-		g.plan = append(g.plan, nmOp{Kind: "addPeerIR", Info: n.info(i, tag, 2), Signers: al, Join: light})
+		g.plan = append(g.plan, nmOp{Kind: "addPeerIR", Info: n.info(i, tag, 2), Signers: al, Join: inBlock})
 		g.plan = append(g.plan, nmOp{Kind: "addNode", Addrs: []string{fmt.Sprintf("a%d", epoch)}, Attrs: [][2]string{{"e", fmt.Sprint(epoch)}},
-			Key: n.nodes[i].pub, State: 1, Signers: []int{-1, i}, Join: light})
+			Key: n.nodes[i].pub, State: 1, Signers: []int{-1, i}, Join: inBlock})
 		if g.r.Intn(4) == 0 {
 			j := g.r.Intn(nn)
 			if j != i {
-				g.plan = append(g.plan, nmOp{Kind: "deleteNode", Key: n.nodes[j].pub, Signers: al, Join: light})
+				g.plan = append(g.plan, nmOp{Kind: "deleteNode", Key: n.nodes[j].pub, Signers: al, Join: inBlock})
 			}
 		}
 		if g.r.Intn(5) == 0 {
-			g.plan = append(g.plan, nmOp{Kind: "updateStateIR", State: 3, Key: n.nodes[i].pub, Signers: al, Join: light})
+			g.plan = append(g.plan, nmOp{Kind: "updateStateIR", State: 3, Key: n.nodes[i].pub, Signers: al, Join: inBlock})
 		}
 		if g.r.Intn(12) == 0 {
-			g.plan = append(g.plan, nmOp{Kind: "newEpoch", Epoch: epoch, Signers: []int{i}}) // not the Alphabet: inert
+			g.plan = append(g.plan, nmOp{Kind: "newEpoch", Epoch: epoch, Signers: []int{i}, Join: inBlock}) // not the Alphabet: inert
 		}
-		g.plan = append(g.plan, nmOp{Kind: "newEpoch", Epoch: epoch, Signers: al, Light: light})
+		// one time in six the tick shares its block with the candidate changes and the
+		// tick of the next epoch: [newEpoch(e), addPeerIR, addNode, newEpoch(e+1)]
+		g.plan = append(g.plan, nmOp{Kind: "newEpoch", Epoch: epoch, Signers: al, Light: light, Join: joinNext})
+		prevJoined = joinNext
 	}
 	for k := 0; k < len(ticks); k++ {
 		for j := 0; j < ticks[k]; j++ {
 			// warm-up ticks long before the next resize are observed through the short projection
 			light = lightWarmup && k < len(counts) && j < ticks[k]-2
+			joinNext = j+1 < ticks[k] && g.r.Intn(6) == 0
 			tick()
 		}
 		if k < len(counts) {
@@ -1643,6 +1718,28 @@ func nmCorpus(prop string, n *nmEnv) [][]nmOp {
 				tick(256),
 			},
 			reannounce(),
+			{ // several transactions per block: [newEpoch(2), addPeerIR(n2), newEpoch(3)] - both ticks
+				// are individually valid and see the same ledger.CurrentIndex(); then
+				// [subscribe, tick], two ticks, tick + refused tick + tick, and a block whose
+				// second tick a probe rejects
+				{Kind: "addPeerIR", Info: n.info(0, 1, 2), Signers: al},
+				tick(1),
+				{Kind: "newEpoch", Epoch: 2, Signers: al, Join: true},
+				{Kind: "addPeerIR", Info: n.info(2, 2, 2), Signers: al, Join: true},
+				tick(3),
+				{Kind: "subscribe", Hash: p0, Signers: al, Join: true},
+				tick(4),
+				{Kind: "newEpoch", Epoch: 5, Signers: al, Join: true},
+				tick(6),
+				{Kind: "newEpoch", Epoch: 7, Signers: al, Join: true},
+				{Kind: "newEpoch", Epoch: 7, Signers: al, Join: true},
+				{Kind: "updateStateIR", State: 3, Key: k0, Signers: al, Join: true},
+				tick(9),
+				{Kind: "probeSetFault", Probe: 0, Epoch: 11},
+				{Kind: "newEpoch", Epoch: 10, Signers: al, Join: true},
+				tick(11),
+				tick(12),
+			},
 		}
 	case "C07":
 		return [][]nmOp{
@@ -1679,6 +1776,11 @@ func nmCorpus(prop string, n *nmEnv) [][]nmOp {
 				{Kind: "deleteNode", Key: k0[:32], Signers: al},
 				{Kind: "addPeer", Info: n.info(0, 7, 4), Signers: []int{-1, 0}}, // re-adding
 				tick(2),
+				// several transactions per block
+				{Kind: "updateStateIR", State: 3, Key: k0, Signers: al, Join: true},
+				{Kind: "newEpoch", Epoch: 3, Signers: al, Join: true},
+				{Kind: "deleteNode", Key: k0, Signers: al, Join: true},
+				tick(4),
 			},
 			reannounce(),
 		}
@@ -1699,6 +1801,10 @@ func nmCorpus(prop string, n *nmEnv) [][]nmOp {
 			cat(ticks(1, 12), []nmOp{resize(12), resize(11), resize(13)}, ticks(13, 13), []nmOp{resize(11), resize(14)}, ticks(14, 27), []nmOp{resize(11)}, ticks(28, 30)),
 			// count 1
 			cat([]nmOp{resize(1)}, ticks(1, 3), []nmOp{resize(2)}, ticks(4, 6), []nmOp{resize(1)}, ticks(7, 8)),
+			// several ticks per block: [newEpoch(2), addPeerIR, addNode, newEpoch(3)], [newEpoch(4), newEpoch(5)]
+			cat(ticks(1, 1), []nmOp{{Kind: "newEpoch", Epoch: 2, Signers: al, Join: true},
+				{Kind: "addPeerIR", Info: n.info(3, 3, 2), Signers: al, Join: true}, func() nmOp { o := addN(3, "3"); o.Join = true; return o }(), tick(3),
+				{Kind: "newEpoch", Epoch: 4, Signers: al, Join: true}, tick(5), resize(3)}, ticks(6, 8)),
 		}
 	}
 	return nil
@@ -1951,7 +2057,17 @@ type sysOp struct {
 	Details []byte `json:"details,omitempty"`
 	Cid     int    `json:"cid,omitempty"`
 	Size    int64  `json:"size,omitempty"`
-	Signers []int  `json:"signers"` // -1 committee (Alphabet), 0..2 nodes, 10+i users
+	Signers []int  `json:"signers"`        // -1 committee (Alphabet), 0..2 nodes, 10+i users
+	Join    bool   `json:"join,omitempty"` // same block as the next operation
+}
+
+func hasSignerIdx(l []int, i int) bool {
+	for _, x := range l {
+		if x == i {
+			return true
+		}
+	}
+	return false
 }
 
 func (o sysOp) String() string {
@@ -2051,30 +2167,30 @@ func (s *sysEnv) signers(idx []int) []neotest.Signer {
 	return out
 }
 
-func (s *sysEnv) exec(op sysOp) Result {
+func (s *sysEnv) prepare(op sysOp) *transaction.Transaction {
 	x := s.x
 	sg := s.signers(op.Signers)
 	switch op.Kind {
 	case "newEpoch":
-		return x.Invoke(sg, x.netmap, "newEpoch", op.Epoch)
+		return x.PrepareTx(sg, x.netmap, "newEpoch", op.Epoch)
 	case "addPeerIR":
-		return x.Invoke(sg, x.netmap, "addPeerIR", op.Info)
+		return x.PrepareTx(sg, x.netmap, "addPeerIR", op.Info)
 	case "subscribe":
-		return x.Invoke(sg, x.netmap, "subscribeForNewEpoch", op.Hash)
+		return x.PrepareTx(sg, x.netmap, "subscribeForNewEpoch", op.Hash)
 	case "mint":
-		return x.Invoke(sg, x.balance, "mint", op.To, op.Amount, op.Details)
+		return x.PrepareTx(sg, x.balance, "mint", op.To, op.Amount, op.Details)
 	case "lock":
-		return x.Invoke(sg, x.balance, "lock", op.Details, op.From, op.To, op.Amount, op.Until)
+		return x.PrepareTx(sg, x.balance, "lock", op.Details, op.From, op.To, op.Amount, op.Until)
 	case "burn":
-		return x.Invoke(sg, x.balance, "burn", op.From, op.Amount, op.Details)
+		return x.PrepareTx(sg, x.balance, "burn", op.From, op.Amount, op.Details)
 	case "transfer":
-		return x.Invoke(sg, x.balance, "transfer", op.From, op.To, op.Amount, nil)
+		return x.PrepareTx(sg, x.balance, "transfer", op.From, op.To, op.Amount, nil)
 	case "balTick":
-		return x.Invoke(sg, x.balance, "newEpoch", op.Epoch)
+		return x.PrepareTx(sg, x.balance, "newEpoch", op.Epoch)
 	case "cntTick":
-		return x.Invoke(sg, x.container, "newEpoch", op.Epoch)
+		return x.PrepareTx(sg, x.container, "newEpoch", op.Epoch)
 	case "putSize":
-		return x.Invoke(sg, x.container, "putContainerSize", op.Epoch, x.cids[op.Cid], op.Size, x.pubs[op.Node])
+		return x.PrepareTx(sg, x.container, "putContainerSize", op.Epoch, x.cids[op.Cid], op.Size, x.pubs[op.Node])
 	}
 	panic(op.Kind)
 }
@@ -2334,125 +2450,207 @@ func runEpochSystem(t *testing.T, st *Stats) {
 				return sysOp{Kind: "cntTick", Epoch: s.epoch + int64(r.Intn(3)), Signers: al}
 			}
 		}
+		probeSub := false
+		trackedEpoch := int64(0)
+		// runBlock executes 1-3 operations as the transactions of ONE block (every
+		// transaction of the block sees ledger.CurrentIndex() = block index - 1); the
+		// reads are made after the block and attached to its last transaction.
+		runBlock := func(ops []sysOp) {
+			rej := "[]"
+			if s.rej != nil {
+				rej = fmt.Sprintf("[(%s, %s)]", f.pool.Ref(s.probe.BytesBE()), ZI(*s.rej))
+			}
+			live := x.live()
+			var txs []*transaction.Transaction
+			for _, op := range ops {
+				txs = append(txs, s.prepare(op))
+			}
+			blk := x.E.AddNewBlock(t, txs...)
+			cur := blk.Index - 1
+			s.epoch = x.ReadInt(x.netmap, "epoch").Int64()
+			single := len(ops) == 1
+			tickedOK := false
+			if !single {
+				hist["sys.blocks_with_several_transactions"]++
+			}
+			for bi, op := range ops {
+				res := x.ResultOf(txs[bi], blk)
+				last := bi == len(ops)-1
+				ret := gNull
+				if !res.Halt {
+					ret = gFault
+				} else if op.Kind == "transfer" {
+					b, _ := res.Stack[0].TryBool()
+					ret = gBool(b)
+				}
+				var qs []sysQuery
+				if last {
+					qs = s.queries()
+				}
+				var qc, as []string
+				var ans []gv
+				for _, q := range qs {
+					a := s.answer(n, q)
+					ans = append(ans, a)
+					qc = append(qc, q.coq(f.pool))
+					as = append(as, f.val(a))
+				}
+				var evs []string
+				evg := s.events(n, res)
+				for _, ev := range evg {
+					evs = append(evs, f.val(ev))
+				}
+				steps = append(steps, fmt.Sprintf("((%s, (%s, %s), %s), %s)", rej, s.coqCtx(f, op, cur), s.coqOp(f, op, live),
+					ListLit(paren(qc)), VList([]string{f.val(ret), VList(evs), VList(as)})))
+				evals++
+				oc := "halt"
+				if !res.Halt {
+					oc = "fault"
+				}
+				hist["sys."+op.Kind+"/"+oc]++
+				// --- monitor (search engine)
+				// every individually valid tick succeeds, wherever it stands in its block
+				if op.Kind == "newEpoch" {
+					want := hasSignerIdx(op.Signers, -1) && op.Epoch > trackedEpoch && !(probeSub && s.rej != nil && *s.rej == op.Epoch)
+					if want != res.Halt {
+						violate(fmt.Sprintf("%s at epoch %d (transaction %d of %d in its block): expected success=%v, halted=%v (%s)",
+							op.String(), trackedEpoch, bi+1, len(ops), want, res.Halt, res.Fault))
+					}
+					if res.Halt {
+						trackedEpoch = op.Epoch
+						tickedOK = true
+						ticksOK++
+					} else {
+						ticksRefused++
+					}
+				}
+				if res.Halt && op.Kind == "subscribe" && string(op.Hash) == string(s.probe.BytesBE()) {
+					probeSub = true
+				}
+				if res.Halt && op.Kind == "putSize" {
+					putsOK++
+				}
+				if !res.Halt && len(evg) != 0 {
+					violate("a faulted transaction left notifications: " + op.String())
+				}
+				if !last {
+					if res.Halt && op.Kind == "lock" {
+						locks[string(op.To)] = &lockRec{parent: op.From, until: op.Until}
+					}
+					continue
+				}
+				// atomicity, release at expiry, clean-up: on the reads after the block
+				balOf := func(a []byte, from []gv) *big.Int {
+					for j, q := range qs {
+						if q.kind == "bal" && string(q.a) == string(a) && j < len(from) {
+							return from[j].i
+						}
+					}
+					return big.NewInt(0)
+				}
+				if single && !res.Halt && prev != nil && len(prev) == len(ans) {
+					same := true
+					for j := range ans {
+						if qs[j].kind == "est" {
+							continue // the window of epochs is the same only if the epoch is
+						}
+						if !ans[j].eq(prev[j]) {
+							same = false
+						}
+					}
+					if !same {
+						violate("a faulted transaction changed an observable: " + op.String())
+					}
+				}
+				if res.Halt && op.Kind == "lock" {
+					locks[string(op.To)] = &lockRec{parent: op.From, until: op.Until}
+				}
+				if tickedOK {
+					for la, l := range locks {
+						if l.until <= trackedEpoch && !(res.Halt && op.Kind == "lock" && string(op.To) == la) {
+							if single && balOf([]byte(la), ans).Sign() != 0 {
+								violate(fmt.Sprintf("tick %d through netmap did not release lock %s (until %d)", trackedEpoch, Hex([]byte(la)), l.until))
+							}
+							if prev != nil && balOf([]byte(la), prev).Sign() > 0 {
+								released++
+							}
+							delete(locks, la)
+						}
+					}
+				}
+				if res.Halt && op.Kind == "newEpoch" {
+					for j, q := range qs {
+						if q.kind != "est" || q.e == 0 {
+							continue // epoch 0 encodes to the empty string: the scan lists every epoch (recorded C20 finding); compared with the model only
+						}
+						if op.Epoch-q.e > s.d2 {
+							cleaned++
+							if len(ans[j].l) != 0 {
+								violate(fmt.Sprintf("tick %d through netmap left estimations of epoch %d", op.Epoch, q.e))
+							}
+						}
+					}
+				}
+				prev = ans
+			}
+		}
+		var pend []sysOp
+		flushPend := func() {
+			if len(pend) > 0 {
+				runBlock(pend)
+				pend = nil
+			}
+		}
+		var queue []sysOp
 		for i := 0; i < nops; i++ {
-			op := next(i)
+			var op sysOp
+			if len(queue) > 0 {
+				op, queue = queue[0], queue[1:]
+			} else if i >= 6 && r.Intn(8) == 0 {
+				// a block pattern: [newEpoch(e+1), addPeerIR(n2), newEpoch(e+2)], two ticks, lock + tick
+				tk := func(e int64) sysOp { return sysOp{Kind: "newEpoch", Epoch: e, Signers: []int{-1}, Join: true} }
+				switch r.Intn(3) {
+				case 0:
+					queue = []sysOp{tk(s.epoch + 1), {Kind: "addPeerIR", Node: 2, Info: x.infos[2], Signers: []int{-1}, Join: true}, tk(s.epoch + 2)}
+				case 1:
+					queue = []sysOp{tk(s.epoch + 1), tk(s.epoch + 2)}
+				default:
+					queue = []sysOp{{Kind: "lock", From: u0, To: s.locks[r.Intn(2)], Amount: 100, Until: s.epoch + 1, Details: []byte{byte(i)}, Signers: []int{-1}, Join: true},
+						tk(s.epoch + 1), tk(s.epoch + 2)}
+				}
+				queue[len(queue)-1].Join = false
+				op, queue = queue[0], queue[1:]
+			} else {
+				op = next(i)
+				if r.Intn(6) == 0 {
+					op.Join = true
+				}
+			}
 			all = append(all, op)
 			switch op.Kind {
 			case "probeSetFault":
+				flushPend()
 				res := x.Invoke(nil, s.probe, "setFault", op.Epoch)
 				require.True(t, res.Halt, res.Fault)
 				e := op.Epoch
 				s.rej = &e
 				continue
 			case "probeClearFault":
+				flushPend()
 				res := x.Invoke(nil, s.probe, "clearFault")
 				require.True(t, res.Halt, res.Fault)
 				s.rej = nil
 				continue
 			}
-			rej := "[]"
-			if s.rej != nil {
-				rej = fmt.Sprintf("[(%s, %s)]", f.pool.Ref(s.probe.BytesBE()), ZI(*s.rej))
+			pend = append(pend, op)
+			if op.Kind == "newEpoch" && op.Join && hasSignerIdx(op.Signers, -1) && op.Epoch > s.epoch {
+				s.epoch = op.Epoch // the generator's belief while the block is assembled
 			}
-			var live [][]byte
-			if op.Kind == "putSize" {
-				live = x.live()
+			if !op.Join || len(pend) >= 3 {
+				flushPend()
 			}
-			res := s.exec(op)
-			cur := x.E.TopBlock(t).Index - 1
-			s.epoch = x.ReadInt(x.netmap, "epoch").Int64()
-			ret := gNull
-			if !res.Halt {
-				ret = gFault
-			} else if op.Kind == "transfer" {
-				b, _ := res.Stack[0].TryBool()
-				ret = gBool(b)
-			}
-			qs := s.queries()
-			var qc, as []string
-			var ans []gv
-			for _, q := range qs {
-				a := s.answer(n, q)
-				ans = append(ans, a)
-				qc = append(qc, q.coq(f.pool))
-				as = append(as, f.val(a))
-			}
-			var evs []string
-			evg := s.events(n, res)
-			for _, ev := range evg {
-				evs = append(evs, f.val(ev))
-			}
-			steps = append(steps, fmt.Sprintf("((%s, (%s, %s), %s), %s)", rej, s.coqCtx(f, op, cur), s.coqOp(f, op, live),
-				ListLit(paren(qc)), VList([]string{f.val(ret), VList(evs), VList(as)})))
-			evals++
-			oc := "halt"
-			if !res.Halt {
-				oc = "fault"
-			}
-			hist["sys."+op.Kind+"/"+oc]++
-			// --- monitor (search engine): atomicity, release at expiry, clean-up
-			balOf := func(a []byte, from []gv) *big.Int {
-				for j, q := range qs {
-					if q.kind == "bal" && string(q.a) == string(a) && j < len(from) {
-						return from[j].i
-					}
-				}
-				return big.NewInt(0)
-			}
-			if !res.Halt && prev != nil && len(prev) == len(ans) {
-				same := true
-				for j := range ans {
-					if qs[j].kind == "est" {
-						continue // the window of epochs is the same only if the epoch is
-					}
-					if !ans[j].eq(prev[j]) {
-						same = false
-					}
-				}
-				if !same {
-					violate("a faulted transaction changed an observable: " + op.String())
-				}
-				if len(evg) != 0 {
-					violate("a faulted transaction left notifications: " + op.String())
-				}
-			}
-			if res.Halt {
-				switch op.Kind {
-				case "lock":
-					locks[string(op.To)] = &lockRec{parent: op.From, until: op.Until}
-				case "putSize":
-					putsOK++
-				case "newEpoch":
-					ticksOK++
-					for la, l := range locks {
-						if l.until != 0 && l.until <= op.Epoch && prev != nil {
-							was := balOf([]byte(la), prev)
-							if balOf([]byte(la), ans).Sign() != 0 {
-								violate(fmt.Sprintf("tick %d through netmap did not release lock %s (until %d)", op.Epoch, Hex([]byte(la)), l.until))
-							}
-							if was.Sign() > 0 {
-								released++
-							}
-							delete(locks, la)
-						}
-					}
-					for j, q := range qs {
-						if q.e == 0 {
-							continue // epoch 0 encodes to the empty string: the scan lists every epoch (recorded C20 finding); compared with the model only
-						}
-						if q.kind == "est" && op.Epoch-q.e > s.d2 && len(ans[j].l) != 0 {
-							violate(fmt.Sprintf("tick %d through netmap left estimations of epoch %d", op.Epoch, q.e))
-						}
-						if q.kind == "est" && op.Epoch-q.e > s.d2 {
-							cleaned++
-						}
-					}
-				}
-			} else if op.Kind == "newEpoch" {
-				ticksRefused++
-			}
-			prev = ans
 		}
+		flushPend()
 		f.cases = append(f.cases, fmt.Sprintf("((%s, %s), (%s, %s, %s), %s, %s, %s)", ZI(s.d1), ZI(s.d2),
 			f.pool.Ref(x.netmap.BytesBE()), f.pool.Ref(x.balance.BytesBE()), f.pool.Ref(x.container.BytesBE()),
 			ListLit([]string{f.pool.Ref(s.probe.BytesBE())}), ListLit(pre), ListLit(steps)))
